@@ -136,7 +136,10 @@ def run(rep: Report, prog: Program, tier: str) -> None:
         return None
 
     for pic in (5, 128, 32767):
-        for length in (0, 1, pmax - 5, pmax - 4, pmax - 3, pmax - 2, pmax, 2 * pmax, 2 * (pmax - 4), 3000):
+        lengths = (0, 1, pmax - 5, pmax - 4, pmax - 3, pmax - 2, pmax, 2 * pmax, 2 * (pmax - 4), 3000)
+        if tier == "thorough":
+            lengths += tuple(k * (pmax - d) + e for k in (1, 2, 3, 5) for d in (0, 1, 2, 3, 4, 5, 6) for e in (-1, 0, 1)) + (10 * pmax + 7,)
+        for length in sorted(set(x for x in lengths if x >= 0)):
             buf = bytes((i * 7 + 3) % 256 for i in range(length))
             desc = f"buffer of {length} bytes, picture id {pic}"
             try:
